@@ -217,6 +217,7 @@ def c16d(ck, prog):
     is assigned several times; no value derived from a `rename` attribute may reach a case conversion (reaching definitions)."""
     R = "C16-d ORDER rename precedence"
     n = 0
+    kinds = {}
     for f in prog.fns.values():
         if f.crate != "ohkami_macros" or "case::Case" in f.key:
             continue
@@ -224,6 +225,7 @@ def c16d(ck, prog):
             if c.name not in ("apply_to_field", "apply_to_variant") or "case::Case" not in (c.callee or "") or len(c.args) < 2:
                 continue
             n += 1
+            kinds[c.name] = kinds.get(c.name, 0) + 1
             st = f.origin(c.args[1])
             if st and st[-1][0] == "call" and st[-1][1].name in ("deref", "as_str", "as_ref", "borrow") and st[-1][1].args:
                 st = f.origin(st[-1][1].args[0])
@@ -257,4 +259,6 @@ def c16d(ck, prog):
                   "" if ok else "in %s a name taken from an explicit `#[serde(rename = ..)]` (%s) reaches the container's case conversion: serde writes the renamed name verbatim "
                   "(`rename_all = \"camelCase\"` + `rename = \"legacy_id\"` is `legacy_id` on the wire, the schema would say `legacyId`)" % (f.key, bad[0][:70]),
                   how="no definition of the name derived from `.rename` reaches the conversion (%d reaching definition(s))" % len(reach))
-    ck.floor(R, "case conversions of names in the generator", n, 4)
+    # floors per kind of name (a shared helper may serve several call sites: the count of sites is not the invariant)
+    ck.floor(R, "case conversions of field names in the generator", kinds.get("apply_to_field", 0), 1)
+    ck.floor(R, "case conversions of variant names in the generator", kinds.get("apply_to_variant", 0), 1)
